@@ -35,9 +35,11 @@
 import EasyMl.Lemmas.RecordContainer
 import EasyMl.Lemmas.RecordContainerTape
 import EasyMl.Lemmas.RecordContainerHistory
+import EasyMl.Lemmas.RecordContainerSurface
+import EasyMl.Props.C09
 
 namespace EasyMl.C06
-open EasyMl EasyMl.RC
+open EasyMl EasyMl.RC EasyMl.Iter EasyMl.Spec
 
 variable {R : Type} [Field R] [RealFns R]
 
@@ -1031,6 +1033,281 @@ example : (CInstr.vars 0 [("r", 1), ("c", 2)] [(2 : ℚ), 3]).Valid := by
 
 example : AllWF ([] : List (Cont ℚ)) := fun _ h => by cases h
 
+/-! ## The rest of the surface: iterators as records, conversions, `Clone`, the container as a
+source, the by-value forms (Model/RecordContainerSurface.lean)
+
+These are the items the harness drives with comparisons of its own (`api-check-failed`) or
+through an ownership form the container model identified with another one. -/
+
+/-! ### `AsRecords` over the C09 iterators -/
+
+/-- **`iter_as_records` / `AsRecords::from_tensor` / `AsRecords::from(history, TensorIterator)`**
+    yields exactly the container's element-by-element records, in row-major order of its shape,
+    then `None` forever; it never panics and never reads outside the source (every item is
+    `some (some _)`).  `state k` is C09's `ShapeIterator` after `k` calls. -/
+theorem iter_as_records_items (c : Cont R) (hc : c.WF) :
+    Enumerates c.iterAsRecordsNext c.tensorIterStart (elements c.shape)
+      (fun k => (c.toRecs[k]?).map some) (fun k => ShapeIter.steps k c.tensorIterStart) := by
+  have E := asRecords_enumerates
+    ((shape_enumerates (c.shape.map (·.2))).copy c.getReferenceUnchecked (id : R × Nat → R × Nat)) c.history
+  refine enumerates_congr E ?_
+  intro k
+  by_cases hk : k < elements c.shape
+  · have hk' : k < prod (c.shape.map (·.2)) := hk
+    have hlt : k < c.elems.length := by rw [hc.length_eq]; exact hk
+    simp only [shapeItem, hk', if_true, Option.map_some, Cont.getReferenceUnchecked,
+      getReference_unravel c k hk, toRecs_getElem?, List.getElem?_eq_getElem hlt, id]
+  · have hk' : ¬ k < prod (c.shape.map (·.2)) := hk
+    have hge : c.toRecs.length ≤ k := by
+      simp only [Cont.toRecs, List.length_map, hc.length_eq]; omega
+    simp [shapeItem, hk', List.getElem?_eq_none hge]
+
+example : (⟨[("a", 2)], [((2 : ℚ), 0), (3, 1)], some 0⟩ : Cont ℚ).WF := ⟨by decide, by simp, by simp⟩
+
+/-- … so the first `n` calls return the first `n` records (padded with `None`s), … -/
+theorem iter_as_records_collect (c : Cont R) (hc : c.WF) (n : Nat) :
+    collect c.iterAsRecordsNext n c.tensorIterStart =
+      .ok ((List.range n).map fun k => (c.toRecs[k]?).map some, ShapeIter.steps n c.tensorIterStart) := by
+  have := (iter_as_records_items c hc).collect_from n 0
+  rw [(iter_as_records_items c hc).start, Nat.zero_add, ← List.range_eq_range'] at this
+  exact this
+
+/-- … and `size_hint()` / `len()` after any `k` calls (past the end included) are exactly the
+    number of records still to come (for element counts that fit a `usize`). -/
+theorem iter_as_records_len (c : Cont R) (hfit : elements c.shape ≤ usizeMax) (k : Nat) :
+    c.iterAsRecordsSizeHint (ShapeIter.steps k c.tensorIterStart) =
+        .ok (remaining (elements c.shape) k, some (remaining (elements c.shape) k)) ∧
+      lenOfHint (c.iterAsRecordsSizeHint (ShapeIter.steps k c.tensorIterStart)) =
+        .ok (remaining (elements c.shape) k) :=
+  C09.shapeIter_len (c.shape.map fun (d : String × Nat) => d.2) hfit k
+
+example : elements [("a", 2), ("b", 3)] ≤ usizeMax := by decide
+
+/-- **`iter_row_major_as_records` / `AsRecords::from_matrix_row_major`**: the records in
+    row-major order, exact lengths at every step. -/
+theorem iter_row_major_as_records_items (c : Cont R) (hc : c.WF) (rn cn : String) (r k : Nat)
+    (hs : c.shape = [(rn, r), (cn, k)]) :
+    Enumerates c.iterRowMajorAsRecordsNext c.matIterStart (r * k)
+        (fun n => (c.toRecs[n]?).map some) (rowMajorState r k)
+      ∧ (r * k ≤ usizeMax → ∀ n,
+          Cont.asRecordsSizeHint rowMajorSizeHint (rowMajorState r k n) =
+            .ok (remaining (r * k) n, some (remaining (r * k) n))) := by
+  have hlen : c.elems.length = r * k := by
+    rw [hc.length_eq, hs]; simp [elements, prod]
+  constructor
+  · have E := asRecords_enumerates
+      ((rowMajor_enumerates r k).copy c.matrixCell (id : R × Nat → R × Nat)) c.history
+    have hstart : c.matIterStart = MatIter.new r k := by
+      simp [Cont.matIterStart, Cont.viewRows, Cont.viewColumns, hs]
+    rw [hstart]
+    refine enumerates_congr E ?_
+    intro n
+    by_cases hn : n < r * k
+    · have hk0 : 0 < k := by
+        rcases Nat.eq_zero_or_pos k with h0 | h0
+        · rw [h0] at hn; simp at hn
+        · exact h0
+      have hdiv : n / k < r := (Nat.div_lt_iff_lt_mul hk0).mpr hn
+      have hmod : n % k < k := Nat.mod_lt _ hk0
+      have hpos : n / k * k + n % k = n := Nat.div_add_mod' n k
+      have hlt : n < c.elems.length := by rw [hlen]; exact hn
+      simp only [rowMajorItem, hn, if_true, Option.map_some, Cont.matrixCell, Cont.tryGetReference,
+        Cont.getReference, hs, position_matrix, hdiv, hmod, and_self, hpos, toRecs_getElem?,
+        List.getElem?_eq_getElem hlt, id]
+    · have hge : c.toRecs.length ≤ n := by
+        simp only [Cont.toRecs, List.length_map, hlen]; omega
+      simp [rowMajorItem, hn, List.getElem?_eq_none hge]
+  · intro hfit n
+    exact rowMajorSizeHint_state r k n hfit
+
+/-- **`iter_column_major_as_records` / `AsRecords::from_matrix_column_major`**: call `n` returns
+    the record at row `n % rows`, column `n / rows`. -/
+theorem iter_column_major_as_records_items (c : Cont R) (hc : c.WF) (rn cn : String) (r k : Nat)
+    (hs : c.shape = [(rn, r), (cn, k)]) :
+    Enumerates c.iterColumnMajorAsRecordsNext c.matIterStart (r * k)
+        (fun n => if n < r * k then some (c.toRecs[n % r * k + n / r]?) else none)
+        (colMajorState r k)
+      ∧ (∀ n, n < r * k → (c.toRecs[n % r * k + n / r]?).isSome = true)
+      ∧ (r * k ≤ usizeMax → ∀ n,
+          Cont.asRecordsSizeHint colMajorSizeHint (colMajorState r k n) =
+            .ok (remaining (r * k) n, some (remaining (r * k) n))) := by
+  have hlen : c.elems.length = r * k := by
+    rw [hc.length_eq, hs]; simp [elements, prod]
+  have hbound : ∀ n, n < r * k → n % r * k + n / r < r * k := by
+    intro n hn
+    have hr0 : 0 < r := by
+      rcases Nat.eq_zero_or_pos r with h0 | h0
+      · rw [h0] at hn; simp at hn
+      · exact h0
+    have hmod : n % r < r := Nat.mod_lt _ hr0
+    have hdiv : n / r < k := (Nat.div_lt_iff_lt_mul hr0).mpr (by rw [Nat.mul_comm]; exact hn)
+    calc n % r * k + n / r < n % r * k + k := by omega
+      _ = (n % r + 1) * k := by rw [Nat.add_mul, Nat.one_mul]
+      _ ≤ r * k := Nat.mul_le_mul_right _ hmod
+  refine ⟨?_, ?_, ?_⟩
+  · have E := asRecords_enumerates
+      ((colMajor_enumerates r k).copy c.matrixCell (id : R × Nat → R × Nat)) c.history
+    have hstart : c.matIterStart = MatIter.new r k := by
+      simp [Cont.matIterStart, Cont.viewRows, Cont.viewColumns, hs]
+    rw [hstart]
+    refine enumerates_congr E ?_
+    intro n
+    by_cases hn : n < r * k
+    · have hr0 : 0 < r := by
+        rcases Nat.eq_zero_or_pos r with h0 | h0
+        · rw [h0] at hn; simp at hn
+        · exact h0
+      have hmod : n % r < r := Nat.mod_lt _ hr0
+      have hdiv : n / r < k := (Nat.div_lt_iff_lt_mul hr0).mpr (by rw [Nat.mul_comm]; exact hn)
+      simp only [colMajorItem, hn, if_true, Option.map_some, Cont.matrixCell, Cont.tryGetReference,
+        Cont.getReference, hs, position_matrix, hdiv, hmod, and_self, toRecs_getElem?, id]
+      cases c.elems[n % r * k + n / r]? <;> rfl
+    · simp [colMajorItem, hn]
+  · intro n hn
+    have : n % r * k + n / r < c.toRecs.length := by
+      simp only [Cont.toRecs, List.length_map, hlen]; exact hbound n hn
+    simp [List.getElem?_eq_getElem this]
+  · intro hfit n
+    exact colMajorSizeHint_state r k n hfit
+
+example : (⟨[("r", 1), ("c", 2)], [((2 : ℚ), 0), (3, 1)], some 0⟩ : Cont ℚ).shape
+    = [("r", 1), ("c", 2)] := rfl
+
+/-- **`with_index()` / `WithIndex::from`**: every record comes with the index it has in the
+    container (the `k`-th index of the shape), nothing else changes. -/
+theorem iter_as_records_with_index_items (c : Cont R) (hc : c.WF) :
+    Enumerates c.iterAsRecordsWithIndexNext c.tensorIterStart (elements c.shape)
+      (fun k => (c.toRecs[k]?).map fun r => (unravel (c.shape.map (·.2)) k, some r))
+      (fun k => ShapeIter.steps k c.tensorIterStart) := by
+  have E0 := (shape_enumerates (c.shape.map (·.2))).copy c.getReferenceUnchecked (id : R × Nat → R × Nat)
+  have E := asRecordsWithIndex_enumerates (E0.withIndex fun s => s.indexes) c.history
+  refine enumerates_congr E ?_
+  intro k
+  by_cases hk : k < elements c.shape
+  · have hk' : k < prod (c.shape.map (·.2)) := hk
+    have hlt : k < c.elems.length := by rw [hc.length_eq]; exact hk
+    have hidx := ((steps_spec (c.shape.map (·.2)) k).2.1 hk').2
+    simp only [shapeItem, hk', if_true, Option.map_some, Cont.getReferenceUnchecked,
+      getReference_unravel c k hk, toRecs_getElem?, List.getElem?_eq_getElem hlt, id, hidx]
+  · have hk' : ¬ k < prod (c.shape.map (·.2)) := hk
+    have hge : c.toRecs.length ≤ k := by
+      simp only [Cont.toRecs, List.length_map, hc.length_eq]; omega
+    simp [shapeItem, hk', List.getElem?_eq_none hge]
+
+/-! ### conversions, `Clone`, the container as a source -/
+
+/-- **The four `From` impls** between `Record` and the 0-dimensional `RecordTensor` keep the
+    number, the tape **and the position**: the container made from a record (by value or by
+    reference) has exactly that record as its only element-by-element record, converting back
+    (by value or by reference) returns it, nothing touches a tape (none of the functions takes
+    one). -/
+theorem from_conversions_keep_index (r : Rec R) (c : Cont R) :
+    Cont.fromRecord r = Cont.ofRecord r ∧ Cont.fromRecordRef r = Cont.ofRecord r
+      ∧ (Cont.fromRecordRef r).toRecs = [r] ∧ (Cont.fromRecord r).toRecs = [r]
+      ∧ (Cont.fromRecordRef r).intoRecordRef = .ok r ∧ (Cont.fromRecord r).intoRecord = .ok r
+      ∧ c.intoRecord = c.toRecord ∧ c.intoRecordRef = c.toRecord := by
+  refine ⟨rfl, rfl, rfl, rfl, rfl, rfl, ?_, ?_⟩ <;>
+    (simp only [Cont.intoRecord, Cont.intoRecordRef, Cont.toRecord]; cases c.elems <;> rfl)
+
+/-- **`clone` / `clone_from`**: the copy is the same container — same shape, same numbers, same
+    tape, same positions (so the same derivatives); `clone_from` is `clone` whatever the
+    overwritten container was. -/
+theorem clone_eq (c other : Cont R) :
+    c.clone = c ∧ Cont.cloneFrom other c = c ∧ c.clone.abs = c.abs := by
+  have h : c.clone = c := by
+    cases c with
+    | mk shape elems history => simp [Cont.clone]
+  exact ⟨h, h, by rw [h]⟩
+
+/-- **The container as a `TensorRef` / `MatrixRef` source.**  `view_shape` is the shape;
+    `get_reference` (and the unchecked form) at an index is the element `try_get_as_record` turns
+    into a record there — present exactly for in-bounds indexes; the matrix getters are the
+    2-dimensional case, `(row, column)` designating element `row * columns + column`. -/
+theorem source_getters_eq_element_access (c : Cont R) (hc : c.WF) (idx : List Nat) :
+    c.viewShape = c.shape
+      ∧ (c.getReference idx).map (fun e => Rec.fromExisting e c.history)
+          = c.tryGetAsRecord (Cont.position c.shape idx)
+      ∧ c.getReferenceUnchecked idx = c.getReference idx
+      ∧ (c.getReference idx).isSome = inBounds (c.shape.map (·.2)) idx
+      ∧ (∀ rn cn r k i j, c.shape = [(rn, r), (cn, k)] →
+          c.viewRows = r ∧ c.viewColumns = k
+            ∧ c.tryGetReference i j = if i < r ∧ j < k then c.elems[i * k + j]? else none) := by
+  refine ⟨rfl, ?_, rfl, getReference_some_iff c hc.length_eq idx, ?_⟩
+  · unfold Cont.getReference Cont.tryGetAsRecord
+    cases Cont.position c.shape idx with
+    | none => rfl
+    | some k => simp [Rec.fromExisting]
+  · intro rn cn r k i j hs
+    refine ⟨by simp [Cont.viewRows, hs], by simp [Cont.viewColumns, hs], ?_⟩
+    simp only [Cont.tryGetReference, Cont.getReference, hs, position_matrix]
+    by_cases hij : i < r ∧ j < k <;> simp [hij]
+
+/-- A write through `get_reference_mut` / `try_get_reference_mut` (or the unchecked forms)
+    replaces exactly the designated element: reading the index back gives what was written,
+    every other position keeps its element, shape and tape are untouched; out of range nothing
+    is written. -/
+theorem source_write_then_read (c c' : Cont R) (idx : List Nat) (e : R × Nat) :
+    (c.writeReference idx e = some c' →
+        c'.getReference idx = some e ∧ c'.shape = c.shape ∧ c'.history = c.history
+          ∧ ∃ k, Cont.position c.shape idx = some k ∧ c'.elems = c.elems.set k e)
+      ∧ (inBounds (c.shape.map (·.2)) idx = false → c.writeReference idx e = none) := by
+  constructor
+  · intro h
+    unfold Cont.writeReference at h
+    cases hp : Cont.position c.shape idx with
+    | none => simp [hp] at h
+    | some k =>
+      simp only [hp] at h
+      split at h
+      · rename_i hk
+        injection h with h; subst h
+        refine ⟨?_, rfl, rfl, k, rfl, rfl⟩
+        simp [Cont.getReference, hp, hk]
+      · cases h
+  · intro hb
+    unfold Cont.writeReference
+    rw [position_eq]
+    simp [hb]
+
+/-! ### the by-value forms -/
+
+/-- **`do_unary_assign`, `do_binary_left_assign`, `do_binary_right_assign`, `do_reset`** (tensor
+    and matrix) are the by-reference forms applied to the container that was moved in. -/
+theorem do_forms_eq (a b : Cont R) (fx dfx1 : R → R) (f dfx dfy : R → R → R) (w : World R) :
+    a.doUnaryAssign fx dfx1 w = a.unaryAssign fx dfx1 w
+      ∧ a.doBinaryLeftAssign b f dfx dfy w = a.binaryLeftAssign b f dfx dfy w
+      ∧ a.doBinaryRightAssign b f dfx dfy w = a.binaryRightAssign b f dfx dfy w
+      ∧ a.doReset w = a.reset w := by
+  refine ⟨rfl, ?_, ?_, rfl⟩
+  · unfold Cont.doBinaryLeftAssign
+    cases a.binaryLeftAssign b f dfx dfy w with
+    | ok r => cases r; rfl
+    | panic k => rfl
+  · unfold Cont.doBinaryRightAssign
+    cases a.binaryRightAssign b f dfx dfy w with
+    | ok r => cases r; rfl
+    | panic k => rfl
+
+/-- **`do_binary_right_assign` pairs every partial derivative with its own operand.**  The
+    container that comes back holds, element by element, the scalar record
+    `y.binary(x, |y, x| f(x, y), |y, x| f_y(x, y), |y, x| f_x(x, y))` of the right element `y`
+    and the left element `x`: the entry appended for it names `y`'s position with the
+    derivative `f_y(x, y)` and `x`'s position with `f_x(x, y)`. -/
+theorem do_binary_right_assign_eq_elementwise (a b : Cont R) (f dfx dfy : R → R → R) (w : World R)
+    (hs : a.shape = b.shape) (ha : a.WF) (hb : b.WF) :
+    ((a.doBinaryRightAssign b f dfx dfy w).map fun r => (r.1.shape, r.1.toRecs, r.2))
+      = (zipRecs (fun y x w => y.binary x (fun y x => f x y) (fun y x => dfy x y) (fun y x => dfx x y) w)
+          b.toRecs a.toRecs w).map fun r => (b.shape, r.1, r.2) := by
+  rw [(do_forms_eq a b id id f dfx dfy w).2.2.1]
+  unfold Cont.binaryRightAssign
+  rw [binaryLeftAssign_eq]
+  have key := binary_eq b a (fun y x => f x y) (fun y x => dfy x y) (fun y x => dfx x y) w hs.symm
+    hb.nonempty ha.nonempty
+  rw [← key]
+  cases b.binary a (fun y x => f x y) (fun y x => dfy x y) (fun y x => dfx x y) w with
+  | panic k => rfl
+  | ok r => simp [Outcome.map, asRecs, toRecs_eq]
+
 /-! ### the pinned commit: what the repairs change (kernel evaluation on concrete witnesses) -/
 
 section AsWritten
@@ -1081,5 +1358,40 @@ theorem repaired_matrix_matmul_rejects_two_tapes :
     isPanic (m14.1.matmulMatrix n14.1 n14.2) = true := by decide
 
 end AsWritten
+
+/-! ### the seeded changes of round 6: what they falsify (kernel evaluation on concrete witnesses) -/
+
+section Seeded
+
+/-- two 1×1 record matrices on one tape: `a = [5]` at position 0, `b = [3]` at position 1 -/
+def a62 : Cont ℤ × World ℤ := Cont.variables 0 [("r", 1), ("c", 1)] [5] World.empty
+def b62 : Cont ℤ × World ℤ := Cont.variables 0 [("r", 1), ("c", 1)] [3] a62.2
+
+/-- `do_binary_right_assign` with `f(x, y) = x − y`: `∂/∂a = 1`, `∂/∂b = −1` (and 1 for the new
+    entry itself) — what `do_binary_right_assign_eq_elementwise` says in general … -/
+theorem do_binary_right_assign_partials :
+    derivs11 (a62.1.doBinaryRightAssign b62.1 (fun x y => x - y) (fun _ _ => 1) (fun _ _ => -1) b62.2)
+      = some [[1, -1, 1]] := by decide
+
+/-- … while the seeded variant (C06-r6m2) hands the two partial derivatives to the wrong
+    operands: `do_forms_eq` and `do_binary_right_assign_eq_elementwise` fail for it. -/
+theorem seeded_do_binary_right_assign_swaps_partials :
+    derivs11 (a62.1.doBinaryRightAssignSeeded b62.1 (fun x y => x - y) (fun _ _ => 1) (fun _ _ => -1) b62.2)
+      = some [[-1, 1, 1]] := by decide
+
+/-- `From<&Record>` keeps the position (`from_conversions_keep_index`): the record at position 0
+    of a tape with two entries becomes a container whose element is at position 0, the tape
+    keeps its two entries … -/
+theorem from_ref_keeps_position :
+    (Cont.fromRecordRef (⟨2, some 0, 0⟩ : Rec ℤ)).toRecs.map (·.index) = [0] := by decide
+
+/-- … while the seeded variant (C06-r6m1) builds a disconnected variable: a new entry at
+    position 2 of a tape that now has three entries. -/
+theorem seeded_from_ref_disconnects :
+    (Cont.fromRecordRefSeeded (⟨2, some 0, 0⟩ : Rec ℤ) x11.2).1.toRecs.map (·.index) = [2]
+      ∧ ((Cont.fromRecordRefSeeded (⟨2, some 0, 0⟩ : Rec ℤ) x11.2).2 0).length = 3
+      ∧ (x11.2 0).length = 2 := by decide
+
+end Seeded
 
 end EasyMl.C06
